@@ -13,12 +13,25 @@ pub struct Counting {
     inner: Cursor<Rc<Vec<u8>>>,
     pub seeks: Rc<Cell<u64>>,
     pub bytes: Rc<Cell<u64>>,
+    /// lowest file offset any read has touched so far
+    pub lowest: Rc<Cell<u64>>,
+    /// bytes read beyond the frame (8-byte length + compressed block) that starts at the last absolute seek
+    pub over: Rc<Cell<u64>>,
     /// at most this many bytes are served per read call (a small BufReader-like source)
     pub max_read: usize,
+    frame_left: u64,
 }
 impl Counting {
     pub fn new(data: Vec<u8>) -> Counting {
-        Counting { inner: Cursor::new(Rc::new(data)), seeks: Rc::new(Cell::new(0)), bytes: Rc::new(Cell::new(0)), max_read: usize::MAX }
+        Counting {
+            inner: Cursor::new(Rc::new(data)),
+            seeks: Rc::new(Cell::new(0)),
+            bytes: Rc::new(Cell::new(0)),
+            lowest: Rc::new(Cell::new(u64::MAX)),
+            over: Rc::new(Cell::new(0)),
+            max_read: usize::MAX,
+            frame_left: u64::MAX,
+        }
     }
     pub fn short(data: Vec<u8>, max_read: usize) -> Counting {
         Counting { max_read, ..Counting::new(data) }
@@ -32,6 +45,18 @@ impl Read for Counting {
         buf[..n].copy_from_slice(&data[pos..pos + n]);
         self.inner.set_position((pos + n) as u64);
         self.bytes.set(self.bytes.get() + n as u64);
+        if n > 0 {
+            self.lowest.set(self.lowest.get().min(pos as u64));
+            if self.frame_left != u64::MAX {
+                let n = n as u64;
+                if n > self.frame_left {
+                    self.over.set(self.over.get() + (n - self.frame_left));
+                    self.frame_left = 0;
+                } else {
+                    self.frame_left -= n;
+                }
+            }
+        }
         Ok(n)
     }
 }
@@ -50,6 +75,17 @@ impl Seek for Counting {
             return Err(io::Error::new(io::ErrorKind::InvalidInput, "invalid seek to a negative or overflowing position"));
         }
         self.inner.set_position(new as u64);
+        // an absolute seek starts a block load: the frame there is its 8-byte length and that many bytes
+        self.frame_left = u64::MAX;
+        if let SeekFrom::Start(p) = pos {
+            let data = self.inner.get_ref();
+            let p = p as usize;
+            if p + 8 <= data.len() {
+                let mut l = [0u8; 8];
+                l.copy_from_slice(&data[p..p + 8]);
+                self.frame_left = 8u64.saturating_add(u64::from_be_bytes(l));
+            }
+        }
         Ok(new as u64)
     }
 }
@@ -195,6 +231,8 @@ pub fn run_history(file: &[u8], ops: &[(usize, Op)], with_fp: bool) -> Result<Ve
     let src = if fnv(file) % 3 == 0 { Counting::short(file.to_vec(), 7) } else { Counting::new(file.to_vec()) };
     let seeks = src.seeks.clone();
     let bytes = src.bytes.clone();
+    let lowest = src.lowest.clone();
+    let over = src.over.clone();
     let reader = match catch(|| Reader::new(src)) {
         Ok(Ok(r)) => r,
         Ok(Err(e)) => return Err(format!("open err {}", err_class(&e))),
@@ -203,9 +241,12 @@ pub fn run_history(file: &[u8], ops: &[(usize, Op)], with_fp: bool) -> Result<Ve
     // C16: opening consults the trailer only — no absolute seek (no block load) and at most the
     // 22 trailer bytes read, whatever the size of the file and its codec
     let (open_seeks, open_bytes) = (seeks.get(), bytes.get());
-    if open_seeks != 0 || open_bytes > 22 {
-        println!("DIRECT fail open: Reader::new did {} absolute seek(s) and read {} bytes of a {}-byte file (the trailer is 22 bytes)",
-                 open_seeks, open_bytes, file.len());
+    // the trailer of this file: 22 bytes (version 2) or 21 bytes (version 1)
+    let trailer = if matches!(reader.file_version(), grenad::FileVersion::FormatV1) { 21u64 } else { 22u64 };
+    let lowest_read = lowest.get();
+    if open_seeks != 0 || open_bytes > 22 || (lowest_read != u64::MAX && lowest_read + trailer < file.len() as u64) {
+        println!("DIRECT fail open: Reader::new did {} absolute seek(s) and read {} bytes, the lowest at offset {}, of a {}-byte file (its trailer is the last {} bytes)",
+                 open_seeks, open_bytes, lowest_read, file.len(), trailer);
     }
     let mut cursors: Vec<Option<ReaderCursor<Counting>>> = vec![Some(reader.into_cursor().map_err(|e| err_class(&e))?)];
     let mut lines = Vec::new();
@@ -272,6 +313,12 @@ pub fn run_history(file: &[u8], ops: &[(usize, Op)], with_fp: bool) -> Result<Ve
             r.map(|o| o.map(|(k, v)| (k.to_vec(), v.to_vec()))).map_err(|e| err_class(&e))
         });
         let loads = seeks.get() - before;
+        // C16: a block load reads the frame it sought (8-byte length + compressed block), not its neighbours
+        if over.get() > 0 {
+            println!("DIRECT fail load: operation {} of cursor {} read {} byte(s) beyond the frame(s) of the {} block(s) it sought ({}-byte file)",
+                     opname, cid, over.get(), loads, file.len());
+            over.set(0);
+        }
         let fp = if with_fp { fp_string(&cursors[*cid].as_ref().unwrap().verif_fingerprint()) } else { "-".to_string() };
         match res {
             Ok(Ok(Some((k, v)))) => lines.push(format!("o {} {} = S {} {} {} {}", cid, opname, hex(&k), hex(&v), loads, fp)),
@@ -538,6 +585,9 @@ pub fn generate<W: Write>(c: &mut Cases<W>, rng: &mut Rng, thorough: bool, which
         if cfg.levels > 8 {
             cfg.levels = (cfg.levels % 5) + 1;
         }
+        if which == "C16" && i % 8 == 7 {
+            cfg.levels = 0;
+        }
         let mut es = bounded_entries(rng, &cfg, if deep { 250 } else { 300 }, if deep { 5000 } else { 30000 });
         if which == "C03" && i % 4 == 1 {
             // one entry per data block, few index levels, an in-block index interval of 3..8: every key is
@@ -570,6 +620,11 @@ pub fn generate<W: Write>(c: &mut Cases<W>, rng: &mut Rng, thorough: bool, which
             }
         } else {
             emit_hist(c, &cfg, &es, &file, &ops, which == "C03");
+            if which == "C16" && cfg.levels == 0 {
+                // the version-1 twin: its trailer is 21 bytes, opening must not read below it
+                c.bump("files.v1_twin", 1);
+                emit_hist(c, &cfg, &es, &to_v1(&file), &ops, false);
+            }
         }
     }
     c.bump("files.multi_block_nonroot_level", deep_files);
@@ -619,6 +674,9 @@ pub fn generate_iter<W: Write>(c: &mut Cases<W>, rng: &mut Rng, thorough: bool, 
         let mut cfg = gen_cfg(rng, deep, i % 6 == 5);
         if cfg.levels > 8 {
             cfg.levels = (cfg.levels % 5) + 1;
+        }
+        if which == "C16" && i % 8 == 7 {
+            cfg.levels = 0;
         }
         let mut es = bounded_entries(rng, &cfg, 250, if deep { 5000 } else { 25000 });
         if i < 2 {
